@@ -1,6 +1,15 @@
 import Gleece.Properties.C13
+import Gleece.Properties.SortDet
 #print axioms Gleece.Session.visit_order_deterministic
 #print axioms Gleece.Session.serials_deterministic
 #print axioms Gleece.Session.sorted_perm_eq
 #print axioms Gleece.Session.sortNat_sorted
 #print axioms Gleece.Order.sorts_in_place
+#print axioms Gleece.Sort.lexLe_total
+#print axioms Gleece.Sort.lexLe_trans
+#print axioms Gleece.Sort.lexLe_both_keys_eq
+#print axioms Gleece.Sort.sorted_canonical
+#print axioms Gleece.Sort.mergeSort_canonical
+#print axioms Gleece.Sort.comparators_well_shaped
+#print axioms Gleece.Sort.controllers_sorted_by_package_and_name
+#print axioms Gleece.Sort.models_sorted_by_name_only
